@@ -70,6 +70,9 @@ def _task(task):
                 if tier == 'quick' and m == 'step' and o not in ('default', 'neither'):
                     continue
                 runs.append((f'{o}/{m}', tabx.execute(name, arg, optname=o, mode=m, extra_opts=cap)))
+        # other base orders of the node sets (everything hash-ordered that is not a ranked tie, e.g. which node branch.find() meets first)
+        for order in ((5,) if tier == 'quick' else (5, 11, 23)):
+            runs.append((f'default/build/node-order-seed{order}', tabx.execute(name, arg, order=order, extra_opts=cap)))
         vs = variants(arg)
         if tier == 'quick':
             vs = vs[:6]
@@ -117,7 +120,7 @@ def run(ctx):
         states=sum(r['distinct'] for r in res) + sum(r['groups'] for r in res), transitions=execs, traces_validated_against_impl=execs,
         evaluations=execs, distinct_nontrivial=sum(r['nontrivial'] for r in res),
         rule=('per (logic, argument): schedules within the deviation bound (default options), the 4 option combinations x {build, step}'
-              + (' (step only for default and neither in the quick tier)' if ctx.quick else '') + ', all permutations of <= 3 premises and each '
+              + (' (step only for default and neither in the quick tier)' if ctx.quick else '') + ', 1 (quick) / 3 (thorough) other base orders of the hash-ordered node sets, all permutations of <= 3 premises and each '
               'premise duplicated once; arguments: a slice of the C01 plan weighted towards multi-premise shapes; non-trivial = groups with >= 4 executions'),
         groups=sum(r['groups'] for r in res), groups_with_more_than_one_outcome_class=sum(r['multi_outcome'] for r in res),
         deviation_bound=1 if ctx.quick else 2, step_cap=STEP_CAP[ctx.tier], logics=len(names),
